@@ -307,6 +307,7 @@ def extract_update(src):
 
 USTEPS = [  # normalised statement -> step of Module.update_pars
     ('pars = sc.mergedicts(pars, kwargs)', 'merge'),
+    ('pars = sc.mergedicts(kwargs, pars)', 'merge'),
     ('matches = {}', None),
     ('for key in list(pars.keys()): if key in self.pars: matches[key] = pars.pop(key)', 'matchPop'),
     ('self.pars.update(matches)', 'parsUpdate'),
@@ -346,13 +347,20 @@ def extract_update_pars(src):
         if s not in table:
             raise ExtractError(f'Module.update_pars: unsupported statement: {s[:120]}')
         if table[s]: steps.append('.' + table[s])
+    merge_order = None
+    for st in fn.body:
+        if isinstance(st, ast.Assign) and isinstance(st.value, ast.Call) and unparse(st.value.func) == 'sc.mergedicts':
+            merge_order = [unparse(x) for x in st.value.args]
+            if st.value.keywords: raise ExtractError('Module.update_pars: mergedicts keywords are not supported')
+    if merge_order is None or sorted(merge_order) != ['kwargs', 'pars']:
+        raise ExtractError(f'Module.update_pars: merge of pars and kwargs not found ({merge_order})')
     margs = str_list(src.tree(rel), 'module_args', rel)
     targs = str_list(src.tree('starsim/time.py'), 'time_args', 'starsim/time.py')
     # set_metadata: non-str name/label -> TypeError
     sm = src.func(rel, 'set_metadata', 'Module')
     sm_txt = norm(sm)
     meta_checked = ('if not isinstance(val, str)' in sm_txt) and ('raise TypeError' in sm_txt)
-    return dict(steps=steps, module_args=margs, time_args=targs, meta_checked=meta_checked)
+    return dict(steps=steps, module_args=margs, time_args=targs, meta_checked=meta_checked, merge_order=merge_order)
 
 
 def extract_convert(src):
@@ -377,6 +385,7 @@ def extract_convert(src):
                     'if modtype in moddictvals: modcls = modtype', 'mod = modcls(**mod)']
             if not all(x in txt for x in need) or txt.count('raise TypeError(errormsg)') != 2:
                 raise ExtractError('convert_modules: dict-to-module step has an unsupported shape')
+            dict_facts = convert_dict_content(st)
             steps.append('.dictToModule'); continue
         if isinstance(st, ast.If) and not st.orelse and norm(st.test) == ia:
             inner = st.body
@@ -397,47 +406,207 @@ def extract_convert(src):
         if s == 'modlist[i] = mod':
             steps.append('.store'); continue
         raise ExtractError(f'convert_modules: unsupported per-entry statement: {s[:120]}')
-    # the loop must be guarded by `isinstance(modlist, list)`
-    return dict(steps=steps)
+    if '.dictToModule' not in steps: raise ExtractError('convert_modules: no dict-to-module step')
+    return dict(steps=steps, dict_facts=dict_facts)
+
+
+def raise_kind(stmts, who):
+    """ the exception kind a branch ends with (assignments of the message are skipped); None if it does not raise """
+    body = [x for x in stmts if not (isinstance(x, ast.Assign) and isinstance(x.targets[0], ast.Name) and x.targets[0].id in ('errormsg', 'msg'))]
+    if len(body) == 1 and isinstance(body[0], ast.Raise):
+        nm = unparse(body[0].exc.func) if isinstance(body[0].exc, ast.Call) else unparse(body[0].exc)
+        if nm not in ERR: raise ExtractError(f'{who}: unsupported exception {nm}')
+        return f'(.raise .{ERR[nm]})'
+    return None
+
+
+def convert_dict_content(st):
+    """ the dict branch of convert_modules read statement by statement: what each failure raises, whether the name is
+        lower-cased before the lookup, whether the remaining entries are passed to the constructor """
+    who = 'convert_modules (dict spec)'
+    facts = dict(no_type=None, bad_name=None, bad_class=None, lower=False, kwargs=False, pops_type=False)
+    body = list(st.body)
+    for x in body:
+        if isinstance(x, ast.If) and norm(x.test) == "'type' in mod":
+            facts['pops_type'] = [norm(y) for y in x.body] == ["modtype = mod.pop('type')"]
+            facts['no_type'] = raise_kind(x.orelse, who) or '.ignore'
+        elif isinstance(x, ast.If) and norm(x.test) == 'isinstance(modtype, str)':
+            pre = [y for y in x.body if not isinstance(y, ast.If)]
+            facts['lower'] = [norm(y) for y in pre] == ['modtype = modtype.lower()']
+            for y in x.body:
+                if isinstance(y, ast.If) and norm(y.test) == 'modtype in moddictkeys':
+                    if [norm(z) for z in y.body] != ['modcls = ssmoddict[modtype]']: raise ExtractError(f'{who}: name lookup changed')
+                    facts['bad_name'] = raise_kind(y.orelse, who) or '.ignore'
+            for y in x.orelse:
+                if isinstance(y, ast.If) and norm(y.test) == 'modtype in moddictvals':
+                    if [norm(z) for z in y.body] != ['modcls = modtype']: raise ExtractError(f'{who}: class lookup changed')
+                    facts['bad_class'] = raise_kind(y.orelse, who) or '.ignore'
+        elif norm(x) == 'mod = modcls(**mod)':
+            facts['kwargs'] = True
+        elif norm(x) == 'mod = modcls()':
+            facts['kwargs'] = False
+        elif isinstance(x, ast.Expr) and isinstance(x.value, ast.Constant):
+            continue
+        else:
+            raise ExtractError(f'{who}: unsupported statement: {norm(x)[:100]}')
+    if None in (facts['no_type'], facts['bad_name'], facts['bad_class']):
+        raise ExtractError(f'{who}: a failure branch was not found: {facts}')
+    return facts
 
 
 def extract_sim(src):
+    """ Sim.__init__ up to the parameter update: every statement must be one of the recognised five, in this order """
     rel = 'starsim/sim.py'
     fn = src.func(rel, '__init__', 'Sim')
     a = fn.args
     names = [x.arg for x in a.args]
-    if 'copy_inputs' not in names:
-        raise ExtractError('Sim.__init__: no copy_inputs argument')
+    if 'copy_inputs' not in names or names[:2] != ['self', 'pars'] or a.kwarg is None:
+        raise ExtractError('Sim.__init__: expected (self, pars=None, ..., copy_inputs=..., **kwargs)')
     dflt = dict(zip(names[len(names) - len(a.defaults):], a.defaults))
     d = unparse(dflt['copy_inputs'])
     if d not in ('True', 'False'): raise ExtractError('Sim.__init__: copy_inputs default is not a bool literal')
-    fwd = False; merged = None; strict_update = False
+    stage = 0; fwd = False; order = None; merged = None
     for st in fn.body:
-        if isinstance(st, ast.Assign) and isinstance(st.value, ast.Call) and unparse(st.value.func) == 'sc.mergedicts':
+        if isinstance(st, ast.Expr) and isinstance(st.value, ast.Constant): continue
+        s = norm(st)
+        if stage == 0:
+            if s != 'self.pars = ss.make_pars()':
+                raise ExtractError(f'Sim.__init__: parameters do not start from fresh defaults: {s[:100]}')
+            stage = 1; continue
+        if stage == 1:
+            ok = (isinstance(st, ast.Assign) and s.startswith('args = dict(') and isinstance(st.value, ast.Call) and not st.value.args
+                  and all(isinstance(k.value, ast.Name) and k.value.id == k.arg for k in st.value.keywords))
+            if not ok: raise ExtractError(f'Sim.__init__: unsupported statement: {s[:100]}')
+            stage = 2; continue
+        if stage == 2:
+            if s != 'args = {key: val for key, val in args.items() if val is not None}':
+                raise ExtractError(f'Sim.__init__: unsupported statement: {s[:100]}')
+            stage = 3; continue
+        if stage == 3:
+            if not (isinstance(st, ast.Assign) and isinstance(st.value, ast.Call) and unparse(st.value.func) == 'sc.mergedicts'):
+                raise ExtractError(f'Sim.__init__: unsupported statement: {s[:100]}')
             merged = unparse(st.targets[0])
             kw = {k.arg: unparse(k.value) for k in st.value.keywords}
-            args = [unparse(x) for x in st.value.args]
-            if args != ['pars', 'args', 'kwargs']:
-                raise ExtractError(f'Sim.__init__: mergedicts arguments changed: {args}')
-            fwd = kw.get('_copy') == 'copy_inputs'
+            order = [unparse(x) for x in st.value.args]
+            if sorted(order) != ['args', 'kwargs', 'pars'] or set(kw) - {'_copy'}:
+                raise ExtractError(f'Sim.__init__: mergedicts arguments changed: {order} {kw}')
             if '_copy' in kw and kw['_copy'] not in ('copy_inputs', 'True', 'False'):
                 raise ExtractError('Sim.__init__: unsupported _copy expression')
-            if kw.get('_copy') == 'True': fwd = True; d = 'True' if d == 'True' else d
-        if merged and norm(st) == f'self.pars.update({merged})':
-            strict_update = True
-    if merged is None: raise ExtractError('Sim.__init__: sc.mergedicts(pars, args, kwargs, ...) not found')
-    return dict(copy_default=(d == 'True'), copy_forwarded=fwd, strict_update=strict_update)
+            fwd = kw.get('_copy') in ('copy_inputs', 'True')
+            if kw.get('_copy') == 'True': d = 'True'
+            stage = 4; continue
+        if stage == 4:
+            if s != f'self.pars.update({merged})':
+                raise ExtractError(f'Sim.__init__: merged inputs do not go through the strict update: {s[:100]}')
+            stage = 5; break
+    if stage != 5: raise ExtractError('Sim.__init__: parameter handling prelude incomplete')
+    return dict(copy_default=(d == 'True'), copy_forwarded=fwd, strict_update=True, merge_order=order)
+
+
+def extract_time(src):
+    """ ss.Time.__init__ / Time.update / Module.__init__: where constructor keywords and a `pars=` dict end up when a
+        class never calls update_pars """
+    rel = 'starsim/time.py'
+    init = src.func(rel, '__init__', 'Time')
+    ia = init.args
+    init_names = [x.arg for x in ia.args][1:]
+    init_txt = norm(init)
+    if 'self.update(pars=pars, parent=parent)' not in init_txt or 'pars' not in init_names:
+        raise ExtractError('Time.__init__: `self.update(pars=pars, parent=parent)` not found')
+    upd = src.func(rel, 'update', 'Time')
+    ua = upd.args
+    if [x.arg for x in ua.args][:2] != ['self', 'pars'] or ua.kwarg is None:
+        raise ExtractError('Time.update: signature is not (self, pars=None, ..., **kwargs)')
+    kwname = ua.kwarg.arg
+    loop = None; leftover = '.ignore'
+    for st in upd.body:
+        if isinstance(st, ast.Expr) and isinstance(st.value, ast.Constant): continue
+        s = norm(st)
+        if isinstance(st, ast.For):
+            if norm(st.iter) != 'time_args' or loop is not None:
+                raise ExtractError(f'Time.update: unsupported loop over {norm(st.iter)}')
+            loop = st; continue
+        uses = names_in(st) & {'pars', kwname}
+        if not uses: continue
+        if s == 'pars = sc.mergedicts(pars)': continue
+        # a guard on names outside time_args
+        if isinstance(st, ast.If) and any(isinstance(x, ast.Raise) for x in ast.walk(st)) and 'time_args' in s:
+            r = [x for x in ast.walk(st) if isinstance(x, ast.Raise)][0]
+            nm = unparse(r.exc.func) if isinstance(r.exc, ast.Call) else unparse(r.exc)
+            if nm not in ERR: raise ExtractError(f'Time.update: unsupported exception {nm}')
+            leftover = f'(.raise .{ERR[nm]})'; continue
+        if isinstance(st, ast.Assign) and 'time_args' in s and not any(isinstance(x, ast.Raise) for x in ast.walk(st)):
+            continue    # e.g. `unknown = set(pars) - set(time_args)` feeding a later guard
+        raise ExtractError(f'Time.update: unsupported use of the supplied dict: {s[:100]}')
+    if loop is None: raise ExtractError('Time.update: loop over time_args not found')
+    ltxt = norm(loop)
+    if f'kw_val = {kwname}.get(key)' not in ltxt or 'par_val = pars.get(key)' not in ltxt:
+        raise ExtractError('Time.update: kw_val / par_val are not read by key from the supplied dicts')
+    # precedence in the default (force is None) branch
+    prec = None
+    for n in ast.walk(loop):
+        if isinstance(n, ast.If) and norm(n.test) == 'force is False':
+            for m in n.orelse:
+                if isinstance(m, ast.If) and norm(m.test) == 'force is None' and len(m.body) == 1 and isinstance(m.body[0], ast.Assign):
+                    c = m.body[0].value
+                    if isinstance(c, ast.Call) and unparse(c.func) == 'sc.ifelse':
+                        prec = [unparse(x) for x in c.args]
+    if prec is None or 'kw_val' not in prec or 'par_val' not in prec:
+        raise ExtractError('Time.update: default precedence `sc.ifelse(kw_val, par_val, ...)` not found')
+    kw_first = prec.index('kw_val') < prec.index('par_val')
+    if 'current_val' not in prec: raise ExtractError('Time.update: current_val missing from the default precedence')
+    # Time.__init__ stores its keywords as attributes (current values) BEFORE calling update(pars=pars): in the constructor
+    # the `pars=` dict therefore competes with them as par_val against current_val
+    stored_first = all(f'self.{k} = {k}' in init_txt.split('self.update(pars=pars, parent=parent)')[0] for k in ('start', 'stop', 'dt', 'unit'))
+    if not stored_first: raise ExtractError('Time.__init__: keywords are not stored before update(pars=pars)')
+    ctor_pars_win = prec.index('par_val') < prec.index('current_val')
+    # Module.__init__ forwards its keywords to ss.Time
+    mi = src.func('starsim/modules.py', '__init__', 'Module')
+    fwd = any(isinstance(n, ast.Call) and unparse(n.func) == 'ss.Time' and any(k.arg is None and unparse(k.value) == (mi.args.kwarg.arg if mi.args.kwarg else '') for k in n.keywords)
+              for n in ast.walk(mi))
+    return dict(init_names=init_names, init_varkw=ia.kwarg is not None, leftover=leftover, kw_first=kw_first, ctor_pars_win=ctor_pars_win, module_forwards=fwd)
+
+
+def extract_ndict(src):
+    """ ss.ndict: a second item with a name already present is rejected unless overwrite is set """
+    rel = 'starsim/utils.py'
+    init = src.func(rel, '__init__', 'ndict')
+    kwd = {a.arg: unparse(d) for a, d in zip(init.args.kwonlyargs, init.args.kw_defaults) if d is not None}
+    if kwd.get('overwrite') not in ('True', 'False'):
+        raise ExtractError('ndict.__init__: keyword-only `overwrite=<bool>` not found')
+    ck = src.func(rel, '_check_key', 'ndict')
+    action = None
+    for st in ck.body:
+        if isinstance(st, ast.If) and norm(st.test) == 'key in self':
+            for inner in st.body:
+                if isinstance(inner, ast.If) and norm(inner.test) == 'not overwrite':
+                    r = [x for x in inner.body if isinstance(x, ast.Raise)]
+                    if len(r) == 1:
+                        nm = unparse(r[0].exc.func) if isinstance(r[0].exc, ast.Call) else unparse(r[0].exc)
+                        if nm not in ERR: raise ExtractError(f'ndict._check_key: unsupported exception {nm}')
+                        action = f'(.raise .{ERR[nm]})'
+                    else:
+                        action = '.ignore'
+    if action is None:
+        raise ExtractError('ndict._check_key: `if key in self: if not overwrite: raise ...` not found')
+    ap = norm(src.func(rel, 'append', 'ndict'))
+    if 'self._check_key(key, overwrite=overwrite)' not in ap or 'if self._strict:' not in ap:
+        raise ExtractError('ndict.append: the strict duplicate check is not applied')
+    strict = {a.arg: unparse(d) for a, d in zip(init.args.kwonlyargs, init.args.kw_defaults) if d is not None}.get('strict')
+    return dict(overwrite_default=kwd['overwrite'] == 'True', duplicate=action, strict_default=strict == 'True')
 
 
 def lb(b): return 'true' if b else 'false'
 
 
-@generator('ParsDispatch', ['starsim/parameters.py', 'starsim/modules.py', 'starsim/sim.py', 'starsim/time.py'])
+@generator('ParsDispatch', ['starsim/parameters.py', 'starsim/modules.py', 'starsim/sim.py', 'starsim/time.py', 'starsim/utils.py'])
 def gen(src):
     u = extract_update(src)
     p = extract_update_pars(src)
     c = extract_convert(src)
     s = extract_sim(src)
+    t = extract_time(src)
+    nd = extract_ndict(src)
     strl = lambda l: '[' + ', '.join(lean_str(x) for x in l) + ']'
     body = f'''import StarsimModel.Model.ParsCore
 namespace StarsimModel.Gen
@@ -471,14 +640,44 @@ def metadataTypeChecked : Bool := {lb(p['meta_checked'])}
 /-- `SimPars.convert_modules`: ordered per-entry rewrite steps -/
 def convertSteps : List CStep := [{', '.join(c['steps'])}]
 
+/-- the dict branch of `convert_modules`, read statement by statement -/
+def convertDictNoType : Action := {c['dict_facts']['no_type']}
+def convertBadName : Action := {c['dict_facts']['bad_name']}
+def convertBadClass : Action := {c['dict_facts']['bad_class']}
+def convertLowercases : Bool := {lb(c['dict_facts']['lower'])}
+def convertPopsType : Bool := {lb(c['dict_facts']['pops_type'])}
+def convertPassesKwargs : Bool := {lb(c['dict_facts']['kwargs'])}
+
 /-- `Sim.__init__`: `copy_inputs` default, forwarded to `sc.mergedicts(_copy=...)`, merged dict passed to the strict `self.pars.update` -/
 def simCopyDefault : Bool := {lb(s['copy_default'])}
 def simCopyForwarded : Bool := {lb(s['copy_forwarded'])}
 def simStrictUpdate : Bool := {lb(s['strict_update'])}
+/-- `sc.mergedicts(<order>)`: later dicts win -/
+def simMergeOrder : List String := {strl(s['merge_order'])}
+
+/-- `Module.__init__`: `self.t = ss.Time(**kwargs, ...)` — keywords of a class that never calls update_pars go to ss.Time -/
+def moduleInitForwardsToTime : Bool := {lb(t['module_forwards'])}
+/-- named parameters of `Time.__init__` (a keyword outside this list is a Python TypeError unless it takes **kwargs) -/
+def timeInitNames : List String := {strl(t['init_names'])}
+def timeInitVarKw : Bool := {lb(t['init_varkw'])}
+/-- `Time.update`: what happens to entries of the `pars` dict / keywords that are not time arguments -/
+def timeUpdateLeftover : Action := {t['leftover']}
+/-- `Time.update`: a keyword wins over the same key in the `pars` dict -/
+def timeKwBeforePars : Bool := {lb(t['kw_first'])}
+/-- `Time.__init__` stores its keywords, then `update(pars=pars)`: the dict entry beats the stored keyword (`par_val` before `current_val`) -/
+def timeCtorParsWin : Bool := {lb(t['ctor_pars_win'])}
+
+/-- `Module.update_pars`: `sc.mergedicts(<order>)` of the positional dict and the keywords; later wins -/
+def updateParsMergeOrder : List String := {strl(p['merge_order'])}
+
+/-- `ss.ndict`: a name that is already present -/
+def ndictDuplicateAction : Action := {nd['duplicate']}
+def ndictOverwriteDefault : Bool := {lb(nd['overwrite_default'])}
+def ndictStrictDefault : Bool := {lb(nd['strict_default'])}
 end StarsimModel.Gen
 '''
     facts = dict(strict=u['strict'], atomic=u['atomic'], update_tree=' '.join(u['upd_tree'].split()),
                  new_key_tree=u['new_tree'], key_mismatch_tree=' '.join(u['ck_tree'].split()),
                  update_pars_steps=p['steps'], module_args=p['module_args'], time_args=p['time_args'],
-                 meta_checked=p['meta_checked'], convert_steps=c['steps'], sim=s)
+                 meta_checked=p['meta_checked'], convert_steps=c['steps'], convert_dict=c['dict_facts'], sim=s, time=t, ndict=nd, update_pars_merge=p['merge_order'])
     return body, facts
